@@ -80,9 +80,9 @@ func (h *H) Param(name string, def int) int {
 }
 
 // Known marks the paths on which cond holds as belonging to the known
-// finding id: a violation reported later on such a path is printed as
-// KNOWN-FINDING (if id is listed in known_findings.json) instead of
-// VIOLATION. It returns cond.
+// finding id for exactly the next Assert: a violation of that assertion on
+// such a path is printed as KNOWN-FINDING (if id is listed as known in
+// known_findings.json) instead of VIOLATION. It returns cond.
 func (h *H) Known(id string, cond bool) bool { return cond }
 
 // And/Or/Not/Implies/Ite combine conditions without branching (one SMT term
